@@ -1,7 +1,10 @@
 #!/bin/bash
-# Build the Lean library from files on disk (offline).  Generated modules (lean/HitenModel/Gen) are committed and are
-# regenerated from /repo by every check; lake only rebuilds what changed.
-set -e
-cd "$(dirname "$0")/lean"
-lake build 2>&1 | grep -v "^warning\|unused\|Hint\|apply\]\|Note:\|^\s*$" | tail -40
-exit ${PIPESTATUS[0]}
+# Offline build of the framework: regenerate the Gen/ modules from /repo's current tree, then build the Lean library.
+# A property module that fails to build here is not a setup failure: its check reports it.
+cd "$(dirname "$0")"
+export HITEN_VERIF=1 PYTHONDONTWRITEBYTECODE=1
+/venv/bin/python harness/gen_all.py 2>&1 | grep -v "conda\|WARNING: overwriting"
+cd lean
+lake build HitenModel.Lemmas.REReal 2>&1 | tail -3 || exit 1
+lake build 2>&1 | grep -v "^warning\|unused\|Hint\|apply\]\|Note:\|^\s*$" | tail -15
+exit 0
